@@ -276,6 +276,14 @@ def build_channel_specs():
                   lambda p: cirq.amplitude_damp(p[0]).with_probability(p[1]),
                   lambda p: [k for k in [math.sqrt(max(1 - p[1], 0.0)) * G.I2] + [math.sqrt(p[1]) * k_ for k_ in G.amplitude_damp(p[0])]
                              if np.abs(k).max() > 0], kind="channel"))
+    # sub gates on qudits / mixed shapes: the skipped branch is the identity of the sub gate's own space
+    for shape in ((3,), (2, 3), (4,)):
+        D_ = L.dim_of(shape)
+        S.append(Spec("random_gate_of_matrix" + "x".join(map(str, shape)), shape,
+                      lambda rng, D_=D_: (L.haar_unitary(rng, D_), pick_prob(rng)),
+                      lambda p, shape=shape: cirq.MatrixGate(p[0], qid_shape=shape).with_probability(p[1]),
+                      lambda p, D_=D_: [k for k in (math.sqrt(max(1 - p[1], 0.0)) * np.eye(D_, dtype=complex), math.sqrt(p[1]) * np.array(p[0]))
+                                        if np.abs(k).max() > 0], kind="channel", tags=("qudit",)))
     for d in (2, 3):
         S.append(Spec("reset_d%d" % d, (d,), lambda rng: (), lambda p, d=d: cirq.ResetChannel(dimension=d),
                       lambda p, d=d: G.reset(d), kind="channel"))
